@@ -73,8 +73,7 @@ theorem resetIgnore_id (d : Nat) : ∀ (l : List Nat) (st : St), (∀ i, (st.nod
         rw [this, setNode_node_self_eq]
       · rfl
     show resetIgnore d _ l = st
-    unfold resetIgnore at *
-    simp only [List.foldl_cons]
+    dsimp only
     rw [hstep]
     exact resetIgnore_id d l st h
 
@@ -285,5 +284,314 @@ theorem levelN_top {rel : List Vec} (rec : List Nat → St → Rat × St) (Bf : 
   dsimp only [List.head?_nil, List.reverse_cons, List.reverse_nil, List.nil_append, finish]
   have hrev : ([a] : List Nat).reverse = [a] := rfl
   rw [hrev, hs1, hloop]; ring
+
+/-! ### the areas returned by the 2-D sweep are the cross-section volumes -/
+
+/-- the first two coordinates -/
+def pi2 (p : Vec) : Vec := [co p 0, co p 1]
+
+theorem sweep2Loop_pi2 : ∀ (rest : List Vec) (h : Rat) (q : Vec) (acc : Rat),
+    sweep2Loop h (pi2 q) acc (rest.map pi2) = sweep2Loop h q acc rest
+  | [], h, q, acc => by simp [sweep2Loop, pi2, co]
+  | p :: rest, h, q, acc => by
+    simp only [List.map_cons, sweep2Loop]
+    have h0 : co (pi2 p) 0 = co p 0 := by simp [pi2, co]
+    have h1 : co (pi2 p) 1 = co p 1 := by simp [pi2, co]
+    have hq1 : co (pi2 q) 1 = co q 1 := by simp [pi2, co]
+    rw [h0, h1, hq1]
+    exact sweep2Loop_pi2 rest _ p _
+
+theorem sweep2_pi2 : ∀ l : List Vec, sweep2 (l.map pi2) = sweep2 l
+  | [] => rfl
+  | q :: rest => by
+    simp only [List.map_cons, sweep2]
+    have h0 : co (pi2 q) 0 = co q 0 := by simp [pi2, co]
+    rw [h0]
+    exact sweep2Loop_pi2 rest _ q _
+
+theorem len3 {p : Vec} (h : p.length = 3) : ∃ a b c, p = [a, b, c] := by
+  match p, h with
+  | [a, b, c], _ => exact ⟨a, b, c, rfl⟩
+
+section three
+variable {rel : List Vec} (hrect : Rect 3 rel) (hneg : ∀ p ∈ rel, wdVec p [0, 0, 0] = true)
+include hrect hneg
+
+omit hrect hneg in
+theorem getD_mem {i : Nat} (hi : i < rel.length) : rel.getD i [] ∈ rel := by
+  rw [List.getD_eq_getElem?_getD, List.getElem?_eq_getElem hi]
+  exact List.getElem_mem hi
+
+theorem row3 {i : Nat} (hi : i < rel.length) :
+    ∃ x y z, rel.getD i [] = [x, y, z] ∧ x ≤ 0 ∧ y ≤ 0 ∧ z ≤ 0 := by
+  have hm := getD_mem hi
+  obtain ⟨x, y, z, h⟩ := len3 (hrect _ hm)
+  have := hneg _ hm
+  rw [h] at this
+  simp only [wdVec, Bool.and_eq_true, decide_eq_true_eq, and_true] at this
+  exact ⟨x, y, z, h, this.1, this.2.1, this.2.2⟩
+
+/-- the area stored for a node = the 2-D hypervolume of the first two coordinates of the nodes
+linked so far = the volume of the cross-section of the reversed vectors -/
+theorem area_correct (s1 : List Nat) (orders : List (List Nat)) (ho : orders.getD 1 [] = s1)
+    (hperm : s1.Perm (List.range rel.length))
+    (hsorted : s1.Pairwise (fun i j => co (rel.getD i []) 1 ≤ co (rel.getD j []) 1))
+    (act : List Nat) (hact : ∀ i ∈ act, i < rel.length) :
+    (if act.isEmpty then 0 else sweep2 ((linked orders 1 act).map (fun i => rel.getD i [])))
+      = hv [0, 0] ((act.map (fun i => (rel.getD i []).reverse)).map List.tail) := by
+  by_cases he : act = []
+  · subst he; simp [hv_nil_pts]
+  have hne : act.isEmpty = false := by cases act <;> simp_all
+  rw [hne]
+  simp only [Bool.false_eq_true, if_false]
+  -- the reversed tails are the reversed first-two-coordinate vectors
+  have htail : (act.map (fun i => (rel.getD i []).reverse)).map List.tail
+      = ((act.map (fun i => rel.getD i [])).map pi2).map List.reverse := by
+    rw [List.map_map, List.map_map, List.map_map]
+    apply List.map_congr_left
+    intro i hi
+    obtain ⟨x, y, z, h, _⟩ := row3 hrect hneg (hact i hi)
+    show ((rel.getD i []).reverse).tail = (pi2 (rel.getD i [])).reverse
+    rw [h]; rfl
+  have hrect2 : Rect 2 ((act.map (fun i => rel.getD i [])).map pi2) := by
+    intro p hp
+    obtain ⟨q, _, rfl⟩ := List.mem_map.mp hp
+    rfl
+  rw [htail]
+  have := hv_reverse [0, 0] _ hrect2
+  simp only [List.reverse_cons, List.reverse_nil, List.nil_append, List.cons_append] at this
+  rw [this]
+  -- the sweep side
+  have hlinked_mem : ∀ i, i ∈ linked orders 1 act ↔ i ∈ act := by
+    intro i
+    simp only [linked, ho, List.mem_filter, List.contains_iff_mem]
+    constructor
+    · exact fun h => h.2
+    · intro h
+      exact ⟨hperm.mem_iff.mpr (List.mem_range.mpr (hact i h)), h⟩
+  set L1 := (linked orders 1 act).map (fun i => rel.getD i []) with hL1
+  have hrectL : Rect 2 (L1.map pi2) := by
+    intro p hp
+    obtain ⟨q, _, rfl⟩ := List.mem_map.mp hp
+    rfl
+  have hsortedL : (L1.map pi2).Pairwise (fun p q => co p 1 ≤ co q 1) := by
+    rw [hL1, List.map_map, List.pairwise_map]
+    have : (linked orders 1 act).Pairwise (fun i j => co (rel.getD i []) 1 ≤ co (rel.getD j []) 1) := by
+      simp only [linked, ho]
+      exact List.Pairwise.sublist List.filter_sublist hsorted
+    refine this.imp ?_
+    intro i j hij
+    simpa [Function.comp, pi2, co] using hij
+  have hnegL : ∀ p ∈ L1.map pi2, wdVec p [0, 0] = true := by
+    intro p hp
+    rw [hL1, List.map_map] at hp
+    obtain ⟨i, hi, rfl⟩ := List.mem_map.mp hp
+    obtain ⟨x, y, z, h, hx, hy, _⟩ := row3 hrect hneg (hact i ((hlinked_mem i).mp hi))
+    show wdVec (pi2 (rel.getD i [])) [0, 0] = true
+    rw [h]; simp [pi2, co, wdVec, hx, hy]
+  rw [← sweep2_pi2 L1, sweep2_eq _ hrectL hsortedL hnegL]
+  have := hv_reverse [0, 0] _ hrectL
+  simp only [List.reverse_cons, List.reverse_nil, List.nil_append, List.cons_append] at this
+  rw [this]
+  apply hv_set_ext
+  intro p
+  simp only [hL1, List.mem_map]
+  constructor
+  · rintro ⟨q, ⟨i, hi, rfl⟩, rfl⟩; exact ⟨_, ⟨i, (hlinked_mem i).mp hi, rfl⟩, rfl⟩
+  · rintro ⟨q, ⟨i, hi, rfl⟩, rfl⟩; exact ⟨_, ⟨i, (hlinked_mem i).mpr hi, rfl⟩, rfl⟩
+
+end three
+
+section three
+variable {rel : List Vec} (hrect : Rect 3 rel) (hneg : ∀ p ∈ rel, wdVec p [0, 0, 0] = true)
+include hrect hneg
+
+theorem hd_rev {i : Nat} (hi : i < rel.length) : hd (rel.getD i []).reverse = co (rel.getD i []) 2 := by
+  obtain ⟨x, y, z, h, _⟩ := row3 hrect hneg hi
+  rw [h]; rfl
+
+/-- the id-level sum is the slab sum of the reversed vectors with exact cross-section volumes -/
+theorem idSum_eq_sweepSum (Bf : List Nat → Rat)
+    (hB : ∀ act, (∀ i ∈ act, i < rel.length) →
+      Bf act = hv [0, 0] ((act.map (fun i => (rel.getD i []).reverse)).map List.tail)) :
+    ∀ (rest actpre : List Nat) (q : Nat), (∀ i ∈ actpre ++ q :: rest, i < rel.length) →
+      idSum rel Bf (Bf (actpre ++ [q])) q (actpre ++ [q]) rest
+        = sweepSum (fun X => hv [0, 0] (X.map List.tail)) 0
+            (actpre.map (fun i => (rel.getD i []).reverse)) (rel.getD q []).reverse
+            (rest.map (fun i => (rel.getD i []).reverse))
+  | [], actpre, q, hlt => by
+    have hq : q < rel.length := hlt q (by simp)
+    simp only [idSum, List.map_nil, sweepSum]
+    rw [hB (actpre ++ [q]) (fun i hi => hlt i (by simpa using hi)), hd_rev hrect hneg hq]
+    simp only [List.map_append, List.map_cons, List.map_nil]
+    ring
+  | p :: rest, actpre, q, hlt => by
+    have hq : q < rel.length := hlt q (by simp)
+    have hp : p < rel.length := hlt p (by simp)
+    simp only [idSum, List.map_cons, sweepSum]
+    have ih := idSum_eq_sweepSum Bf hB rest (actpre ++ [q]) p
+      (fun i hi => hlt i (by simp only [List.mem_append, List.mem_cons, List.not_mem_nil, or_false] at hi ⊢; tauto))
+    rw [ih, hB (actpre ++ [q]) (fun i hi => hlt i (by simp only [List.mem_append, List.mem_cons, List.not_mem_nil, or_false] at hi ⊢; tauto)),
+      hd_rev hrect hneg hq, hd_rev hrect hneg hp]
+    simp only [List.map_append, List.map_cons, List.map_nil]
+    ring
+
+/-- the specification, sliced along the last coordinate over the nodes sorted by it -/
+theorem hv_eq_sweepSum_ids (a : Nat) (t : List Nat) (hperm : (a :: t).Perm (List.range rel.length))
+    (hsorted : (a :: t).Pairwise (fun i j => co (rel.getD i []) 2 ≤ co (rel.getD j []) 2)) :
+    hv [0, 0, 0] rel = sweepSum (fun X => hv [0, 0] (X.map List.tail)) 0 []
+      (rel.getD a []).reverse (t.map (fun i => (rel.getD i []).reverse)) := by
+  have hlt : ∀ i ∈ a :: t, i < rel.length := fun i hi => List.mem_range.mp (hperm.mem_iff.mp hi)
+  have h1 := hv_reverse [0, 0, 0] rel hrect
+  simp only [List.reverse_cons, List.reverse_nil, List.nil_append, List.cons_append] at h1
+  rw [← h1]
+  have hset : hv [0, 0, 0] (rel.map List.reverse)
+      = hv [0, 0, 0] ((a :: t).map (fun i => (rel.getD i []).reverse)) := by
+    apply hv_set_ext
+    intro p
+    have hmap : rel.map List.reverse = (List.range rel.length).map (fun i => (rel.getD i []).reverse) := by
+      conv_lhs => rw [← range_map_getD rel]
+      rw [List.map_map]; rfl
+    rw [hmap]
+    exact (List.Perm.map _ hperm).symm.mem_iff
+  rw [hset, List.map_cons]
+  have e : (rel.getD a []).reverse :: t.map (fun i => (rel.getD i []).reverse)
+      = (a :: t).map (fun i => (rel.getD i []).reverse) := rfl
+  apply hv_eq_sweepSum
+  · rw [e, List.pairwise_map]
+    refine (List.Pairwise.and_mem.mp hsorted).imp ?_
+    rintro i j ⟨hi, hj, hij⟩
+    rw [hd_rev hrect hneg (hlt i hi), hd_rev hrect hneg (hlt j hj)]; exact hij
+  · intro p hp
+    rw [e] at hp
+    obtain ⟨i, hi, rfl⟩ := List.mem_map.mp hp
+    obtain ⟨x, y, z, h, _, _, hz⟩ := row3 hrect hneg (hlt i hi)
+    rw [h]; exact hz
+  · intro p hp
+    rw [e] at hp
+    obtain ⟨i, hi, rfl⟩ := List.mem_map.mp hp
+    obtain ⟨x, y, z, h, _⟩ := row3 hrect hneg (hlt i hi)
+    rw [h]; simp
+
+end three
+
+theorem hvRecursive_two (cum : Bool) (orders : List (List Nat)) (active : List Nat) (st : St)
+    (h : active.isEmpty = false) :
+    hvRecursive cum orders 2 active st
+      = levelN cum 2 (hvRecursive cum orders 1) (linked orders 2 active) st := by
+  show hvRecursive cum orders (0 + 2) active st = _
+  rw [hvRecursive, h]
+  rfl
+
+theorem rec1_pure (rel : List Vec) (cum : Bool) (orders : List (List Nat)) (act : List Nat) (st : St)
+    (hc : ∀ i, (st.node i).cargo = rel.getD i []) :
+    hvRecursive cum orders 1 act st
+      = ((if act.isEmpty then 0 else sweep2 ((linked orders 1 act).map (fun i => rel.getD i []))), st) := by
+  simp only [hvRecursive]
+  split
+  · rfl
+  · have : (linked orders 1 act).map (fun i => (st.node i).cargo)
+        = (linked orders 1 act).map (fun i => rel.getD i []) :=
+      List.map_congr_left (fun i _ => hc i)
+    rw [this]
+
+theorem initNode_eq (rel : List Vec) (m : Nat) (bounds : List Rat) (i : Nat) (hi : i < rel.length) :
+    (⟨rel.map (fun p => ⟨p, 0, List.replicate m 0, List.replicate m 0⟩), bounds⟩ : St).node i
+      = ⟨rel.getD i [], 0, List.replicate m 0, List.replicate m 0⟩ := by
+  simp [St.node, List.getD_eq_getElem?_getD, List.getElem?_map, List.getElem?_eq_getElem hi]
+
+theorem initNode_ignore (rel : List Vec) (m : Nat) (bounds : List Rat) (i : Nat) :
+    ((⟨rel.map (fun p => ⟨p, 0, List.replicate m 0, List.replicate m 0⟩), bounds⟩ : St).node i).ignore = 0 := by
+  simp only [St.node, List.getD_eq_getElem?_getD, List.getElem?_map]
+  cases h : rel[i]? <;> simp [sentinelNode]
+
+/-- **three objectives, end to end**: `_HyperVolume(ref).compute(front)` — shift, `preProcess`,
+the general branch of `hvRecursive` at `dimIndex = 2` with its unlink / re-insert loops,
+`ignore` flags and `area`/`volume` bookkeeping, calling the 2-D sweep — is the hypervolume.
+`hbig`: the shifted last coordinates lie above the code's sentinel `-1.0e308`. -/
+theorem compute_3d (r0 r1 r2 : Rat) (front : List Vec) (hrect : Rect 3 front)
+    (hle : ∀ p ∈ front, wdVec p [r0, r1, r2] = true) (hbig : ∀ p ∈ front, negInf < co p 2 - r2) :
+    compute [r0, r1, r2] front = some (hv [r0, r1, r2] front) := by
+  have hsh := shift_eq [r0, r1, r2] front
+  have htr : hv [0, 0, 0] (front.map (fun p => subVec p [r0, r1, r2])) = hv [r0, r1, r2] front := by
+    have := hv_translate [r0, r1, r2] [r0, r1, r2] front rfl hrect
+    simpa [subVec] using this
+  simp only [compute, computeV, List.length_cons, List.length_nil, Nat.zero_add, Nat.succ_ne_zero,
+    if_false, hsh, Option.some.injEq]
+  have hrectrel0 : Rect 3 (front.map (fun p => subVec p [r0, r1, r2])) := rect_shift rfl hrect
+  have hneg0 : ∀ p ∈ front.map (fun p => subVec p [r0, r1, r2]), wdVec p [0, 0, 0] = true := by
+    intro p hp
+    obtain ⟨q, hq, rfl⟩ := List.mem_map.mp hp
+    obtain ⟨a, b, c, rfl⟩ := len3 (hrect q hq)
+    have := hle [a, b, c] hq
+    simp only [wdVec, Bool.and_true, Bool.and_eq_true, decide_eq_true_eq] at this
+    simp only [subVec, wdVec, Bool.and_true, Bool.and_eq_true, decide_eq_true_eq]
+    refine ⟨?_, ?_, ?_⟩ <;> linarith [this.1, this.2.1, this.2.2]
+  have hbig0 : ∀ p ∈ front.map (fun p => subVec p [r0, r1, r2]), negInf < co p 2 := by
+    intro p hp
+    obtain ⟨q, hq, rfl⟩ := List.mem_map.mp hp
+    obtain ⟨a, b, c, rfl⟩ := len3 (hrect q hq)
+    have := hbig [a, b, c] hq
+    simpa [subVec, co] using this
+  generalize front.map (fun p => subVec p [r0, r1, r2]) = rel at *
+  show (hvRecursive true (preOrders true rel 3) 2 (List.range rel.length) _).1 = _
+  rw [← htr]
+  by_cases hne : rel = []
+  · subst hne; simp [hvRecursive, hv_nil_pts]
+  have hnpos : 0 < rel.length := List.length_pos_iff.mpr hne
+  have hlen : (List.range rel.length).isEmpty = false := by
+    cases rel with
+    | nil => exact absurd rfl hne
+    | cons _ _ => simp [List.range_succ]
+  rw [hvRecursive_two true _ _ _ hlen]
+  -- the sweep lists
+  have ho2 : (preOrders true rel 3).getD 2 [] = sortByDim rel 2 (List.range rel.length) := by
+    simp [preOrders, preOrdersDown, preOrdersDown.go]
+  have ho1 : (preOrders true rel 3).getD 1 []
+      = sortByDim rel 1 (sortByDim rel 2 (List.range rel.length)) := by
+    simp [preOrders, preOrdersDown, preOrdersDown.go]
+  have hp2 : (sortByDim rel 2 (List.range rel.length)).Perm (List.range rel.length) := sortByKey_perm _ _
+  have hp1 : (sortByDim rel 1 (sortByDim rel 2 (List.range rel.length))).Perm (List.range rel.length) :=
+    (sortByKey_perm _ _).trans hp2
+  have hlinked : linked (preOrders true rel 3) 2 (List.range rel.length)
+      = sortByDim rel 2 (List.range rel.length) := by
+    unfold linked
+    rw [ho2, List.filter_eq_self]
+    intro a ha
+    simpa using List.mem_range.mp (hp2.mem_iff.mp ha)
+  rw [hlinked]
+  -- name the sorted list
+  obtain ⟨a, t, hat⟩ : ∃ a t, sortByDim rel 2 (List.range rel.length) = a :: t := by
+    cases h : sortByDim rel 2 (List.range rel.length) with
+    | nil =>
+      have := hp2.length_eq
+      rw [h] at this
+      simp at this
+      omega
+    | cons a t => exact ⟨a, t, rfl⟩
+  rw [hat] at hp2 ⊢
+  have hs2 : (a :: t).Pairwise (fun i j => co (rel.getD i []) 2 ≤ co (rel.getD j []) 2) := by
+    rw [← hat]; exact sortByKey_sorted _ _
+  have hlt : ∀ i ∈ a :: t, i < rel.length := fun i hi => List.mem_range.mp (hp2.mem_iff.mp hi)
+  -- the fresh state
+  let st0 : St := ⟨rel.map (fun p => ⟨p, 0, List.replicate 3 0, List.replicate 3 0⟩), List.replicate 3 negInf⟩
+  have hI0 : Inv3 rel st0 :=
+    ⟨by simp [st0], fun i => initNode_cargo rel 3 _ i,
+     fun i hi => by rw [initNode_eq rel 3 _ i hi]; simp⟩
+  let Bf : List Nat → Rat := fun act =>
+    if act.isEmpty then 0 else sweep2 ((linked (preOrders true rel 3) 1 act).map (fun i => rel.getD i []))
+  have hrec : ∀ act st, (∀ i, (st.node i).cargo = rel.getD i []) →
+      hvRecursive true (preOrders true rel 3) 1 act st = (Bf act, st) :=
+    fun act st hc => rec1_pure rel true _ act st hc
+  have htop := levelN_top (hvRecursive true (preOrders true rel 3) 1) Bf hrec true a t st0 hI0
+    (fun i => initNode_ignore rel 3 _ i) (by simp [st0]) hlt (hp2.nodup_iff.mpr List.nodup_range)
+    (fun i hi => hbig0 _ (getD_mem (hlt i hi)))
+  rw [htop]
+  have hB : ∀ act, (∀ i ∈ act, i < rel.length) →
+      Bf act = hv [0, 0] ((act.map (fun i => (rel.getD i []).reverse)).map List.tail) :=
+    fun act hact => area_correct hrectrel0 hneg0 _ _ ho1 hp1 (sortByKey_sorted _ _) act hact
+  have := idSum_eq_sweepSum hrectrel0 hneg0 Bf hB t [] a (by simpa using hlt)
+  simp only [List.nil_append, List.map_nil] at this
+  rw [this, ← hv_eq_sweepSum_ids hrectrel0 hneg0 a t hp2 hs2]
 
 end DH.Hypervolume
